@@ -81,8 +81,10 @@ func (u *Unknown) Wrap(fileKey []byte) ([]*age.Stanza, error) {
 	out := make([]*age.Stanza, len(u.Stanzas))
 	for i, s := range u.Stanzas {
 		c := *s
-		c.Args = append([]string(nil), s.Args...)
-		c.Body = append([]byte(nil), s.Body...)
+		// built the way a recipient builds them with append: spare capacity
+		// behind the arguments and the body
+		c.Args = append(make([]string, 0, len(s.Args)+3), s.Args...)
+		c.Body = append(make([]byte, 0, len(s.Body)+40), s.Body...)
 		out[i] = &c
 	}
 	return out, nil
